@@ -199,6 +199,7 @@ pub fn pinodiff(data: &[u8]) {
             owed_b: u.arbitrary()?,
             pos_rewards: u.arbitrary()?,
             liquidity_delta: u.arbitrary()?,
+            fill: if u.int_in_range(0u8..=9).unwrap_or(1) == 0 { u.int_in_range(1u8..=3).unwrap_or(1) } else { 0 },
         })
     })() else {
         return;
